@@ -37,6 +37,14 @@ func replay(cw *caseWriter, path string) {
 			c19exec(cw, strings.TrimRight(tag, "cb"), in)
 		case 1:
 			c01clExec(cw, tag, in)
+		case 1015:
+			if len(in) == 2 {
+				dir, err := os.MkdirTemp("", "c15failr")
+				if err == nil {
+					c15failCase(cw, tag, dir+"/s", in[0], int(in[1]))
+					os.RemoveAll(dir)
+				}
+			}
 		case 102:
 			in2, obs, leaders := c101Run(in, true)
 			c102monitor(cw, tag, in2, obs)
@@ -95,6 +103,10 @@ func replay(cw *caseWriter, path string) {
 func main() {
 	if len(os.Args) >= 2 && os.Args[1] == "c15child" {
 		c15child(os.Args[2:])
+		return
+	}
+	if len(os.Args) >= 2 && os.Args[1] == "c15failchild" {
+		c15failChild(os.Args[2:])
 		return
 	}
 	if len(os.Args) >= 2 && os.Args[1] == "c102batch" {
@@ -156,6 +168,8 @@ func main() {
 		runC16(cw, tier, seed)
 	case "c15":
 		runC15(cw, tier, seed)
+	case "c15fail":
+		runC15fail(cw, tier, seed)
 	case "c102":
 		runC102(cw, tier, seed, 0)
 	case "c101":
